@@ -1404,6 +1404,7 @@ class Parallel(Logger):
             except RuntimeError:
                 # The helper thread is published just before it is started.
                 time.sleep(0.001)
+                waited += 0.001
                 continue
             if not exit_thread.is_alive():
                 self._detached_exit_thread = None
